@@ -367,6 +367,16 @@ func universes(thorough bool) []*universe {
 	r3b.Preload = []preSvc{{0, 0, []string{"10.0.0.0"}, "a", false}}
 	r3b.RetryUserEvents = true
 	us = append(us, r3b)
+	// a PreferDualStack service on a single-stack cluster (one cluster IP) that requests exactly one address, in a pool
+	// that could also give the other family: it gets exactly the requested address (or nothing) and settles
+	pr1 := mkUniverse("prefer-requests-one", ns12[:1], [][]metallbv1beta1.IPAddressPool{
+		{mkPool("a", []string{"10.0.0.0/31", "fc00::/127"}, nil)},
+	}, slots3[:2], []namedVariant{{"prefer4-ip0", mkSvc(families(v1.IPFamilyPolicyPreferDualStack, "192.168.9.1"), lbIP("10.0.0.0"))},
+		{"prefer4", mkSvc(families(v1.IPFamilyPolicyPreferDualStack, "192.168.9.1"))}, {"auto", mkSvc()},
+		{"prefer46-ip0", mkSvc(families(v1.IPFamilyPolicyPreferDualStack, "192.168.9.1", "fd00::1"), lbIP("10.0.0.0"))},
+		{"prefer4-ann-ip0", mkSvc(families(v1.IPFamilyPolicyPreferDualStack, "192.168.9.1"), annot(AnnotationLoadBalancerIPs, "10.0.0.0"))},
+		{"prefer46-ann-ip0", mkSvc(families(v1.IPFamilyPolicyPreferDualStack, "192.168.9.1", "fd00::1"), annot(AnnotationLoadBalancerIPs, "10.0.0.0"))}}, nil)
+	us = append(us, pr1)
 	// the same PreferDualStack service next to a dual-stack service that recorded both of its addresses (the first sync
 	// re-asserts services with more recorded addresses first, so the top-up cannot take the recorded IPv6 address)
 	r4 := mkUniverse("restart-prefer-topup+dualstack", ns12[:1], [][]metallbv1beta1.IPAddressPool{
